@@ -3,6 +3,17 @@ import ModelD.Scsv
 between (C16). -/
 namespace Scsv
 
+/-- two lists related element by element -/
+inductive Forall₂ {α β} (R : α → β → Prop) : List α → List β → Prop
+  | nil : Forall₂ R [] []
+  | cons {a b l₁ l₂} : R a b → Forall₂ R l₁ l₂ → Forall₂ R (a :: l₁) (b :: l₂)
+
+theorem Forall₂.length_eq {α β} {R : α → β → Prop} {l₁ : List α} {l₂ : List β} (h : Forall₂ R l₁ l₂) :
+    l₁.length = l₂.length := by
+  induction h with
+  | nil => rfl
+  | cons _ _ ih => simp [ih]
+
 /-- all columns have length `n` -/
 def Rect {α} (n : Nat) (cols : List (List α)) : Prop := ∀ c ∈ cols, c.length = n
 
